@@ -67,7 +67,8 @@ PROPS["C13"] = {
     "assumptions": ["application behaviour as in the property: at most one Unsubscribe per id, one Close; connection writes complete"],
     "level_text": "Invariants of an unbounded small-step model of the WebSocket client (any number of subscriptions, server frames of any kind/order/multiplicity, faults, connection loss, any schedule): channels closed exactly when marked, the reader never blocks for good on the error channel, the client mutex is held across a scheduling point only in handleErr, every API call can always take its next step (or waits only for a reader step that is enabled and frees the mutex), and no goroutine panics unless the application ends a subscription while one of its messages is between lookup and channel send (that residual sender/closer race is refuted in the model and listed as an open finding). Tied to websocket.go/subscription.go by per-step in-kernel replay of every explored schedule of the real client under a deterministic controller.",
     "level_note": "partial: Go memory-model races are covered by the lock-set invariant on the model plus -race runs, not by a theorem; timer behaviour not modelled; the residual send-on-closed-channel race is an open finding.",
-    "theorem_status": {"C13_no_panic_partial": "proved (hypothesis: no end-of-subscription while its message is in flight)",
+    "theorem_status": {"C13_map_methods_hold_the_lock": "proved (translator fact: lock discipline of subscriptionMap read from the source)",
+                       "C13_no_panic_partial": "proved (hypothesis: no end-of-subscription while its message is in flight)",
                        "C13_no_panic_refuted": "refuted full statement (witness schedule) - open finding",
                        "C13_api_returns": "proved", "C13_reader_never_stuck": "proved", "C13_lockset": "proved"},
 }
@@ -230,7 +231,9 @@ PROPS["C19"] = {
     "theorem_status": {"C19_no_panic": "proved", "C19_wrapper_is_needed": "proved", "C19_dispatch_is_by_typename": "proved",
                        "C19_missing_typename_is_an_error": "proved", "C19_empty_or_null_typename_is_an_error": "proved",
                        "C19_unknown_typename_is_an_error": "proved", "C19_scalar_or_list_for_an_abstract_value_is_an_error": "proved",
-                       "C19_witness": "proved (non-vacuity)"},
+                       "C19_witness": "proved (non-vacuity)", "C19_templates_as_modelled": "proved (translator facts)",
+                       "C19_result_independent_of_fuel": "proved (fuel monotonicity of all five decoders)", "C19_any_two_sufficient_fuels_agree": "proved",
+                       "C19_never_mistyped": "proved (a decoded value has the Go kind of its type; interfaces hold one of their implementations)"},
 }
 PROPS["C02"] = {
     "coq": ["Properties/C02.v", "Corr/Rtcorr.v"],
@@ -241,7 +244,8 @@ PROPS["C02"] = {
     "theorem_status": {"C02_abstract_value_holds_the_struct_for_its_typename": "proved", "C02_value_readable_at_its_field": "proved",
                        "C02_unknown_keys_are_ignored": "proved", "C02_null_rules": "proved",
                        "C02_null_list_becomes_nil_slice_refuted": "refuted part of the statement (witness by vm_compute; known finding)",
-                       "C02_null_list_mechanism": "proved", "C02_witness": "proved (non-vacuity)"},
+                       "C02_null_list_mechanism": "proved", "C02_witness": "proved (non-vacuity)",
+                       "C02_embedded_fragment_gets_the_same_object": "proved", "C02_special_field_filled_from_its_capture": "proved"},
 }
 
 PROPS["C06"] = {
